@@ -3247,6 +3247,10 @@ def dict_to_Expr(d, modifs = {}, opmode = x86_afs.u32, admode = x86_afs.u32, seg
         if ia32_rexpr.symb in d:
             return symb_to_Expr(d[ia32_rexpr.symb])
     elif is_address(d):
+        if not admode in [x86_afs.u16, x86_afs.u32]:
+            # for MMX/SSE instructions the decoder reuses admode for the
+            # register class (mm, xmm, f64); their addresses are 32-bit
+            admode = x86_afs.u32
         int_cast = tab_afs_int[admode]
         #segm = None
         # XXX test
